@@ -153,7 +153,30 @@ func c12Cases(run *vx.Run) []c12Case {
 		}
 		return p
 	}
+	// screenshot-like content: large flat areas (coded as single long copies, so many histogram tiles hold no token)
+	// with noisy and smoothly graded patches (several histogram clusters)
+	screenshot := func(w, h int) *image.NRGBA {
+		p := image.NewNRGBA(image.Rect(0, 0, w, h))
+		for y := 0; y < h; y++ {
+			for x := 0; x < w; x++ {
+				r, g, b := uint8(240), uint8(240), uint8(240)
+				band := y / 64
+				switch {
+				case band%2 == 1 && x >= 32 && x < 96:
+					r, g, b = uint8(rng.Intn(256)), uint8(rng.Intn(64)), 10
+				case band%4 == 2 && x >= 300 && x < 420:
+					r, g, b = uint8(x), uint8(y), uint8(x+y)
+				case band == 5 && x >= 200 && x < 280:
+					r, g, b = 5, uint8(rng.Intn(32)), uint8(rng.Intn(256))
+				}
+				i := p.PixOffset(x, y)
+				p.Pix[i], p.Pix[i+1], p.Pix[i+2], p.Pix[i+3] = r, g, b, 255
+			}
+		}
+		return p
+	}
 	imgs := []im{
+		{"screenshot-512x512", screenshot(512, 512)},
 		{"tiles-400x300", repetitive(0, 400, 300)},
 		{"rows-400x300", repetitive(1, 400, 300)},
 		{"blocks-400x300", repetitive(2, 400, 300)},
@@ -195,6 +218,9 @@ func c12Cases(run *vx.Run) []c12Case {
 		{"lossy-m4-sharp", def(func(o *webp.EncoderOptions) { o.Quality, o.Method, o.UseSharpYUV = 80, 4, true })},
 		{"lossy-m4-target", def(func(o *webp.EncoderOptions) { o.Method, o.TargetSize = 4, 9000 })},
 		{"lossy-m2-zero-literal", webp.EncoderOptions{Quality: 50, Method: 2}},
+		{"lossy-m4-dithered", def(func(o *webp.EncoderOptions) { o.Quality, o.Method, o.Preprocessing = 40, 4, 2 })},
+		{"lossy-m1-dithered-smooth", def(func(o *webp.EncoderOptions) { o.Quality, o.Method, o.Preprocessing = 30, 1, 3 })},
+		{"lossless-m4-q95", webp.EncoderOptions{Lossless: true, Quality: 95, Method: 4}},
 		{"lossless-m0-q20", webp.EncoderOptions{Lossless: true, Quality: 20, Method: 0}},
 		{"lossless-m3-q50", webp.EncoderOptions{Lossless: true, Quality: 50, Method: 3}},
 		{"lossless-m4-q75", webp.EncoderOptions{Lossless: true, Quality: 75, Method: 4}},
